@@ -15,6 +15,7 @@ import (
 	"io"
 	"net/http"
 	"sort"
+	"strconv"
 	"strings"
 	"sync"
 	"time"
@@ -234,14 +235,20 @@ func doGw(o *common.Out, id string, rg *tcpRig, h frontHdr) {
 		rg.rec.mu.Lock()
 		obs = rg.rec.last
 		rg.rec.mu.Unlock()
-	} else {
-		isErr := resp.StatusCode != 200 || resp.Header.Get(server.XMessageStatusType) == "Error"
+	}
+	// the property read directly on what was sent: no service (neither header nor URL path), no method, no
+	// serialize type, an id or type that is not a number => an error, and no handler
+	_, idErr := strconv.ParseUint(h.id, 10, 64)
+	_, serErr := strconv.Atoi(h.ser)
+	missing := (h.path == "" && strings.TrimPrefix(h.urlpath, "/") == "") || h.meth == "" || h.ser == "" || (h.id != "" && idErr != nil) || serErr != nil
+	isErr := resp.StatusCode != 200 || resp.Header.Get(server.XMessageStatusType) == "Error"
+	if missing || obs == "malformed" {
 		if !isErr {
-			o.Fail(id, "malformed-not-rejected", "a gateway request that never reached the post-read stage was answered without an error", line)
+			o.Fail(id, "malformed-not-rejected", "a malformed gateway request (missing service / method / serialize type, or a non-numeric id / type) was answered without an error", line)
 		}
 		time.Sleep(time.Millisecond)
 		if rg.invokedCount() > inv0 {
-			o.Fail(id, "handler-reached", "a malformed gateway request ran a handler", line)
+			o.Fail(id, "handler-reached", "a malformed gateway request (missing service / method / serialize type, or a non-numeric id / type) ran a handler", line)
 		}
 	}
 	rg.drain()
